@@ -375,6 +375,10 @@ def gen_cases(ck):
             yield "random-derived", d, G.gen_user_from(rng, d, allow_ml=rng.random() < 0.2)
 
 
+# str.isspace() characters (CPython 3) and look-alikes that are not (NUL, BS, ZWSP, WORD JOINER, BOM, U+180E, U+0084, U+0086)
+WS_PROBE = [chr(c) for c in [9, 10, 11, 12, 13, 28, 29, 30, 31, 32, 133, 160, 5760] + list(range(8192, 8203)) +
+            [8232, 8233, 8239, 8287, 12288, 0, 8, 27, 127, 132, 134, 6158, 8203, 8288, 65279]]
+
 RAW_INVALID = ["a = \n", "a = 1\na = 2\n", "[t\nx = 1\n", "= 1\n", "[t]\n[t]\n", "a = 1 b = 2\n", "[[a]]\n[a]\n"]
 
 
@@ -382,8 +386,18 @@ def main(argv=None):
     ck = Check("C20", argv)
     common.setup_impl_env()
     impl = Impl()
-    ck.prove(extra_targets=["Bridge/BridgeConfig.v"], gen_kernels=["_merge"])
+    if ck.prove(extra_targets=["Bridge/BridgeConfig.v", "Props/C20Text.v"], gen_kernels=["_merge"]):
+        ok_ax, ax = common.print_assumptions("Props/C20Text.v", ck.log)
+        if ok_ax:
+            ck.axioms.update(ax)
+        else:
+            ck.broken.append("Print Assumptions pass failed on Props/C20Text.v")
     have_driver = ck.driver()
+    # second extracted model (round 2): _comment_out_toml on the text, Model/ConfigText.v
+    have_text_driver, out = common.build_driver("C20text", ck.log, "ExC20Text")
+    if not have_text_driver:
+        ck.broken.append("text model no longer extracts/compiles: " + out[-300:])
+    text_cases = {}      # text -> replay
     ck.run_witnesses(["w15", "w20"])
 
     lab = Lab()
@@ -419,6 +433,7 @@ def main(argv=None):
             if doc is None:
                 continue
             commented = impl.comment_out(doc.text)
+            text_cases.setdefault(doc.text, (commented, dict(replay, text=doc.text)))
             in_lines, out_lines = doc.text.split("\n"), commented.split("\n")
             if len(in_lines) != len(out_lines) or len(in_lines) != len(doc.lines):
                 ck.disagreement("comment_out", "line count changed", dict(replay, text=doc.text))
@@ -609,9 +624,31 @@ def main(argv=None):
                     if iw is None or mw is None or iw != mw:
                         ck.disagreement("load", f"load on the line model differs: model {mval} impl {v1}",
                                         dict(replay, case=w))
+    # ---- text level: Model/ConfigText.v on the code points of every generated document
+    # plus raw texts (not necessarily TOML): every str.isspace() character, and some that are not, in front of a
+    # header / array header / key / comment / nothing, alone on a line, and between two lines
+    for ws in WS_PROBE:
+        for tail in ("[t]", "[[t]]", "a = 1", "# c", "", "["):
+            for t in (f"x = 1\n{ws}{tail}\ny = 2", f"{ws}{ws} {tail}{ws}\n", f"[u]{ws}{tail}"):
+                if t not in text_cases:
+                    ck.count("raw text probes (text level only)")
+                    text_cases[t] = (impl.comment_out(t), {"text": t, "call": "aw_core.config._comment_out_toml(text)"})
+    if have_text_driver and text_cases:
+        texts = list(text_cases)
+        res = common.run_driver("C20text", [sx([ord(c) for c in t]) for t in texts])
+        for t, mo in zip(texts, res):
+            commented, replay = text_cases[t]
+            ck.count("comment_out on the text: model run")
+            if mo == [-999] or "".join(map(chr, mo)) != commented:
+                got = None if mo == [-999] else "".join(map(chr, mo))
+                ck.disagreement("comment_out_text", f"_comment_out_toml and Model/ConfigText.v differ on the text {t!a}: "
+                                f"model {got!a} impl {commented!a}", dict(replay, model=got, impl=commented))
     ck.assumptions += [
         "tomlkit.parse is an oracle: Section variable `parse` in Model/Config.v load_config; its agreement with the "
         "line-level reading parse_lines is checked on every generated one-line-valued document (stream tomlkit-oracle)",
+        "text level (Model/ConfigText.v): a text is its list of code points; str.strip() is modelled by the set of "
+        "characters with str.isspace() in CPython 3 (TAB..CR, FS..US, SPACE, NEL, NBSP, U+1680, U+2000..U+200A, U+2028, "
+        "U+2029, U+202F, U+205F, U+3000); compared with the code on every generated document (stream comment_out_text)",
         "leaves are compared through labels, one per exact (type, value): 1, 1.0, true and \"1\" are different leaves",
         "the file system is reduced to the one file load_config_toml addresses; directory creation by "
         "dirs.get_config_dir is outside the model; bytes, mtime_ns and inode of the file are compared before/after",
